@@ -66,6 +66,8 @@ Step == /\ l <= Len(Tr) /\ l' = l + 1
                       /\ \A j \in 1..Len(e.pafter) : j # e.off + 1 => e.pafter[j] = e.pbefore[j]) \/ Bad("pointer setter wrote another slot than the schema assigns")
              [] e.k = "has" ->
                   (e.res = (e.tagok /\ e.off + 1 <= Len(e.pbefore) /\ e.pbefore[e.off + 1] # 0)) \/ Bad("Has reads another pointer slot than the schema assigns")
+             [] e.k = "pval" ->      \* Text / Data: a null slot reads as the field's default, a stored value (also the empty one) as itself
+                  (e.got = (IF e.isnull THEN e.dflt ELSE e.val)) \/ Bad("Text/Data field does not read back as the stored value, or as the default when null")
              [] e.k = "size" ->      \* a = data bytes, b = pointers of a freshly allocated struct; off, bits = what the schema node says
                   (e.a = e.off /\ e.b = e.bits) \/ Bad("allocated struct size differs from the schema node")
              [] e.k \in {"roundtrip", "panic", "error", "missing-accessor", "readback", "inactive-read", "name", "checktag"} ->
